@@ -2,6 +2,7 @@ package eng
 
 import (
 	"fmt"
+	"os"
 	"go/constant"
 	"go/token"
 	"go/types"
@@ -47,6 +48,9 @@ func (e *Engine) intrinsic(fr *Frame, st *State, name string, fn *ssa.Function, 
 		} else {
 			bt = tImp(guard, bt)
 		}
+		if os.Getenv("GVC_DEBUG_Q") != "" {
+			fmt.Fprintf(os.Stderr, "quantifier %s body %d bytes, altForm %d altOnly %d\n", bv.S, len(bt.S), len(e.altForm), len(e.altOnly))
+		}
 		res := fmt.Sprintf("(%s ((%s %s)) %s)", q, bv.S, sort, bt.S)
 		if name == "GvcExists" && sort == sInt {
 			vars := shiftedVariants(bt.S, bv.S, func() string { e.nfresh++; return fmt.Sprintf("k%d", e.nfresh) })
@@ -64,13 +68,24 @@ func (e *Engine) intrinsic(fr *Frame, st *State, name string, fn *ssa.Function, 
 			fresh := func() string { e.nfresh++; return fmt.Sprintf("k%d", e.nfresh) }
 			bodies := []string{bt.S}
 			// nested quantifiers: also start from the bodies whose inner quantifier is already shifted
-			for _, inner := range sortedKeys(e.altOnly) {
-				shifted := e.altOnly[inner]
-				if strings.Contains(bt.S, inner) {
-					for _, sh := range shifted {
-						bodies = append(bodies, strings.ReplaceAll(bt.S, inner, sh))
+			// (bounded: the variants are an aid to E-matching, not part of the meaning)
+			if len(bt.S) < 20000 {
+				for _, inner := range sortedKeys(e.altOnly) {
+					shifted := e.altOnly[inner]
+					if len(bodies) >= 4 {
+						break
+					}
+					if strings.Contains(bt.S, inner) {
+						for _, sh := range shifted {
+							if len(bodies) < 4 {
+								bodies = append(bodies, strings.ReplaceAll(bt.S, inner, sh))
+							}
+						}
 					}
 				}
+			}
+			if len(bt.S) > 60000 {
+				bodies = nil
 			}
 			var only []string
 			for bi, b := range bodies {
@@ -273,6 +288,15 @@ func (e *Engine) lenOf(st *State, v Val, t types.Type) T {
 		lh := e.heap(st, ln, arraySort(sRef, sInt))
 		r := e.name(tIte(tEq(x, tNil), tInt(0), tSel(lh, x)), "mlen")
 		e.assume(st, T{fmt.Sprintf("(<= 0 %s)", r.S), sBool})
+		if e.inlineTerms == 0 {
+			// cardinality: a map holding a key has length >= 1, two distinct keys >= 2
+			hn, _, _ := e.mapHeaps(u)
+			ks := e.sortOf(u.Key())
+			hh := e.heap(st, hn, arraySort(sRef, arraySort(ks, sBool)))
+			hs := e.name(tSel(hh, x), "mkeys")
+			e.assume(st, T{fmt.Sprintf("(=> (not (= %s "+tNil.S+")) (forall ((k1 %s)) (! (=> (select %s k1) (>= %s 1)) :pattern ((select %s k1)))))", x.S, ks, hs.S, r.S, hs.S), sBool})
+			e.assume(st, T{fmt.Sprintf("(=> (not (= %s "+tNil.S+")) (forall ((k1 %s) (k2 %s)) (! (=> (and (select %s k1) (select %s k2) (not (= k1 k2))) (>= %s 2)) :pattern ((select %s k1) (select %s k2)))))", x.S, ks, ks, hs.S, hs.S, r.S, hs.S, hs.S), sBool})
+		}
 		return r
 	case *types.Array:
 		return tInt(u.Len())
@@ -732,6 +756,13 @@ func init() {
 		"slices.IndexFunc":        modelIndexFunc,
 		"slices.ContainsFunc":     modelContainsFunc,
 		"slices.Equal":            modelSlicesEqual,
+		"sort.Strings":            modelSortInPlace,
+		"sort.Ints":               modelSortInPlace,
+		"sort.Slice":              modelSortInPlace,
+		"sort.SliceStable":        modelSortInPlace,
+		"slices.Sort":             modelSortInPlace,
+		"slices.SortFunc":         modelSortInPlace,
+		"slices.SortStableFunc":   modelSortInPlace,
 		"reflect.TypeOf":          modelReflectTypeOf,
 	}
 	for k, v := range models {
@@ -1083,4 +1114,46 @@ func modelSlicesEqual(e *Engine, fr *Frame, st *State, fn *ssa.Function, args []
 		return tImp(inRange(i, a), tEq(e.elemAt(s, a, i, et), e.elemAt(s, b, i, et)))
 	})
 	return tAnd(T{fmt.Sprintf("(= (slen %s) (slen %s))", a.S, b.S), sBool}, all)
+}
+
+// sort.*: the elements of the slice argument are permuted in place; nothing else changes.
+// (That the result is sorted, and a permutation, is not modelled.)
+func modelSortInPlace(e *Engine, fr *Frame, st *State, fn *ssa.Function, args []Val, pos token.Pos) Val {
+	e.trust("sort/slices sorting functions only permute the elements of their slice argument (sortedness itself is not modelled)")
+	call := findCall(fr, fn, pos)
+	if call == nil {
+		e.unsupported("sort: call site not found")
+	}
+	argT := call.Call.Args[0].Type()
+	var s T
+	if mi, ok := call.Call.Args[0].(*ssa.MakeInterface); ok { // sort.Slice(x any, ...)
+		argT = mi.X.Type()
+		s, _ = e.val(fr, mi.X).(T)
+	} else {
+		s, _ = args[0].(T)
+	}
+	sl, ok := argT.Underlying().(*types.Slice)
+	if !ok || s.Sort != sSlice {
+		e.unsupported("sort of %s", argT)
+	}
+	et := sl.Elem()
+	if _, isS := isStruct(et); isS && !e.isIntrinsicStruct(et) {
+		skey, sty := e.structKeyOf(et)
+		for i := 0; i < sty.NumFields(); i++ {
+			hn := e.fieldHeapName(skey, sty, i)
+			h := e.heap(st, hn, arraySort(sRef, e.sortOf(sty.Field(i).Type())))
+			nh := e.fresh(h.Sort, "sorted_"+hn)
+			e.assume(st, T{fmt.Sprintf("(forall ((x Ref)) (! (=> (not (and (= (rkind x) 1) (= (ebase x) (sbase %s)))) (= (select %s x) (select %s x))) :pattern ((select %s x))))", s.S, nh.S, h.S, nh.S), sBool})
+			e.recStore(st, hn, T{"(sbase " + s.S + ")", "ELEMS"})
+			st.heaps[hn] = nh
+		}
+		return Tuple{}
+	}
+	hn, hs := e.elemHeap(et)
+	h := e.heap(st, hn, hs)
+	arr := e.fresh(arraySort(sInt, e.sortOf(et)), "sorted")
+	e.assume(st, T{fmt.Sprintf("(forall ((i Int)) (! (=> (not (and (<= (soff %s) i) (< i (+ (soff %s) (slen %s))))) (= (select %s i) (select (select %s (sbase %s)) i))) :pattern ((select %s i))))", s.S, s.S, s.S, arr.S, h.S, s.S, arr.S), sBool})
+	e.recStore(st, hn, T{"(sbase " + s.S + ")", sRef})
+	e.setHeap(st, hn, tStore(h, T{"(sbase " + s.S + ")", sRef}, arr))
+	return Tuple{}
 }
